@@ -35,12 +35,15 @@ CONSTANTS MaxDepth,     \* nesting of composite types in generated shapes
 AllLeaves == {"bool","int","int8","int16","int32","int64","uint","uint8","uint16","uint32","uint64","float32","float64",
               "string","bytes","number","raw","time","any","nany","iface",   \* nany: a named empty interface type; iface: an interface type with a method
               "M_val","M_ptr","TM_val","TM_ptr","MU_both","TMK",        \* named types of the harness library (struct kinds with methods)
-              "MI","TS","TI"}   \* methods on types of integer and string KIND: a named int with MarshalJSON, a named string with MarshalText, a
+              "MI","TS","TI",   \* methods on types of integer and string KIND: a named int with MarshalJSON, a named string with MarshalText, a
                                 \* named int16 with MarshalText on the pointer receiver (the ,string option and the map key rules go by kind,
                                 \* the encoders by method)
-AllWrappers == {"ptr","slice","array2","array1","mapstr","mapint","maptm","mapts","struct1","structopt"}
+              "MB","NPI"}       \* MB: MarshalJSON on the pointer receiver next to MarshalText on the value receiver (for an addressable
+                                \* value the first wins); NPI: a NAMED pointer type (the ,string option only looks through unnamed ones)
+AllWrappers == {"ptr","slice","array2","array1","mapstr","mapint","maptm","mapts","mapkm","struct1","structopt"}
 \* array1: an array of one element is laid out like its element - held directly in an interface word when the element is a pointer
-\* or a map, like a struct of one such field; mapts: keyed by the named string type with MarshalText
+\* or a map, like a struct of one such field; mapts: keyed by the named string type with MarshalText;
+\* mapkm: keyed by an integer kind that has MarshalText and no UnmarshalText (the two methods are looked up independently)
 
 \* a shape is [k |-> kind, e |-> element shape or Leaf("")] ; structs carry their option in the kind:
 \*   struct1   struct { A T }                 structopt  struct { A T `json:"a,omitempty"`; B T `json:",string"`; C `json:"-"`; D `json:"-,"`;
@@ -52,7 +55,8 @@ Wrap(w, sh) == [k |-> w, d |-> sh.d + 1, e |-> sh]
 CanWrap(w, sh) ==
   /\ sh.d < MaxDepth
   /\ (w = "ptr" => sh.k # "ptr")                    \* one level of pointers is enough for the codecs' pointer logic
-  /\ (w \in {"mapstr","mapint","maptm","mapts"} => sh.k \notin {"mapstr","mapint","maptm","mapts"})
+  /\ (w \in {"mapstr","mapint","maptm","mapts","mapkm"} => sh.k \notin {"mapstr","mapint","maptm","mapts","mapkm"})
+  /\ (w = "ptr" => sh.k # "NPI")
 
 VARIABLES shape
 vars == <<shape>>
@@ -67,8 +71,8 @@ Spec == Init /\ [][Next]_vars
 RECURSIVE BaseKind(_)
 BaseKind(sh) == sh.k
 HasEmpty(sh) == sh.k \in {"bool","int","int8","int16","int32","int64","uint","uint8","uint16","uint32","uint64",
-                          "float32","float64","string","bytes","number","raw","any","nany","iface","ptr","slice","mapstr","mapint","maptm","mapts",
-                          "MI","TS","TI"}
+                          "float32","float64","string","bytes","number","raw","any","nany","iface","ptr","slice","mapstr","mapint","maptm","mapts","mapkm",
+                          "MI","TS","TI","NPI"}
                 \* arrays of length 2, structs and time.Time are never empty; raw/number/bytes are strings or slices
 StringOptionApplies(sh) ==
   sh.k \in {"bool","int","int8","int16","int32","int64","uint","uint8","uint16","uint32","uint64","float32","float64","string","number",
